@@ -938,4 +938,51 @@ theorem segsAllExits_prefix (ex : List String) {segs : List Seg} {pre rest : Lis
   simp only [pathExitsOK, Bool.and_eq_true]
   exact ⟨segsExits_expands ex he (Abs.LE.refl _) hc.1, segsExits_expands ex he (Abs.LE.refl _) hc.2⟩
 
+/-! ### the 'unshrunk' entry of a shrunk object -/
+
+/-- nothing obsolete is cached: the cached original corresponds to the current content -/
+def ShrunkOK (s : ShrunkSt) : Prop := s.hasRef = true → s.refContent = s.content
+
+def UnInv (s : ShrunkSt) (u : UnAbs) : Prop :=
+  (s.hasRef = true → u.p = true) ∧ (s.hasRef = true → s.refContent ≠ s.content → u.s = true)
+
+theorem unInv_event (e : Event) {s : ShrunkSt} {u : UnAbs} (h : UnInv s u) : UnInv (sExec e s) (unEvent e u) := by
+  obtain ⟨h1, h2⟩ := h
+  cases e with
+  | write at_ md =>
+    cases at_ <;> cases md <;> first
+      | exact ⟨h1, h2⟩
+      | exact ⟨h1, fun hr _ => by simp [unEvent, h1 hr]⟩
+  | cacheClear => exact ⟨fun h => by simp [sExec] at h, fun h => by simp [sExec] at h⟩
+  | cacheDel k =>
+    cases k <;> first
+      | exact ⟨h1, h2⟩
+      | exact ⟨fun h => by simp [sExec] at h, fun h => by simp [sExec] at h⟩
+  | mayFill => exact ⟨fun _ => rfl, h2⟩
+  | _ => exact ⟨h1, h2⟩
+
+theorem unInv_path (es : List Event) {s : ShrunkSt} {u : UnAbs} (h : UnInv s u) :
+    UnInv (sRun es s) (unPath es u) := by
+  induction es generalizing s u with
+  | nil => exact h
+  | cons e es ih => exact ih (unInv_event e h)
+
+/-- a mutator path that satisfies the 'unshrunk' policy leaves no obsolete original in the cache -/
+theorem shrunk_ok_path (es : List Event) {s : ShrunkSt} (h : ShrunkOK s) (hp : unOK es = true) :
+    ShrunkOK (sRun es s) := by
+  have hi : UnInv s ⟨true, false⟩ := ⟨fun _ => rfl, fun hr hne => absurd (h hr) hne⟩
+  have := unInv_path es hi
+  intro hr
+  simp only [unOK, Bool.not_eq_true'] at hp
+  by_cases e : (sRun es s).refContent = (sRun es s).content
+  · exact e
+  · have := this.2 hr e
+    rw [hp] at this; exact absurd this (by simp)
+
+theorem shrunk_same_answer {s : ShrunkSt} (h : ShrunkOK s) : sUnshrink true s = sUnshrink false s := by
+  unfold sUnshrink
+  cases hr : s.hasRef with
+  | false => rfl
+  | true => simpa using h hr
+
 end PMV.Cache
